@@ -214,6 +214,53 @@ def fault_exhaustive(tier, rng):
     return out
 
 
+UNSAFE_SHAPES = ["direct", "chain", "mid", "child", "twice"]
+UNSAFE_CONFIGS = [["replace"], ["print"], ["actions", ["REPLACE", "PRINT"]], ["actions", ["EXECUTE:echo", "IFCHANGED", "REPLACE"]]]
+
+
+def unsafe_target_case(shape, pol, cfg, dropped=False, k=0):
+    """f0.py, <a symlink whose resolved path Filename refuses, in one of five shapes>, f2.py."""
+    hd = ["My Project", "a (copy)", "q&a", "x;y"][k % 4]
+    tree = {"f0.py": ["file", content("C", 600 + k)], "f2.py": ["file", content("C" if k % 3 else "U", 601 + k)],
+            hd: ["dir"], hd + "/t.py": ["file", content("C" if k % 2 else "Cn", 602 + k)]}
+    mid = ["h.py"]
+    tree["h.py"] = ["link", hd + "/t.py"]
+    if shape == "chain":
+        tree["k.py"] = ["link", "h.py"]
+        mid = ["k.py"]
+    elif shape == "mid":       # the refused name is only on the way; the real path is fine: followed normally
+        tree["t.py"] = ["file", content("C", 603 + k)]
+        tree[hd + "/mid.py"] = ["link", "../t.py"]
+        tree["h.py"] = ["link", hd + "/mid.py"]
+    elif shape == "child":
+        del tree["h.py"]
+        tree["e"] = ["dir"]
+        tree["e/a.py"] = ["file", content("C", 604 + k)]
+        tree["e/k.py"] = ["link", "../" + hd + "/t.py"]
+        mid = ["e"]
+    elif shape == "twice":
+        tree["k.py"] = ["link", "h.py"]
+        mid = ["h.py", "k.py", "h.py"]
+    opts = [cfg]
+    if pol:
+        opts = ([["symlinks", pol]] + opts) if dropped else (opts + [["symlinks", pol]])
+    return dict(tool=TOOLS[k % 3][0], extra=list(TOOLS[k % 3][1]), opts=opts, tree=tree,
+                args=["f0.py"] + mid + ["f2.py"], answers=[], after=k % 2)
+
+
+def unsafe_target_exhaustive(tier, rng):
+    out, k = [], 0
+    for shape in UNSAFE_SHAPES:
+        for pol in POLICIES + [None]:
+            for ci, cfg in enumerate(UNSAFE_CONFIGS):
+                k += 1
+                if tier != "thorough" and pol != "follow" and ci != (k // len(UNSAFE_CONFIGS)) % len(UNSAFE_CONFIGS):
+                    continue
+                out.append(unsafe_target_case(shape, pol, cfg, False, k))
+        out.append(unsafe_target_case(shape, "follow", ["replace"], True, k))   # policy dropped (D4)
+    return out
+
+
 def build_tree(root, tree):
     names = sorted(tree, key=lambda n: (n.count("/"), n))
     for n in names:
@@ -260,7 +307,9 @@ def gen_opts(rng):
     return opts
 
 
-UNSAFE_TARGETS = bool(os.environ.get("PFB_C09_UNSAFE_TARGET"))   # on by default once the Lean model covers it
+# symlinks with an ordinary name whose resolved path `Filename` refuses (the model covers them: Env.realSafe,
+# ErrKind.unsafeTarget); PFB_C09_UNSAFE_TARGET=0 switches the branch off
+UNSAFE_TARGETS = os.environ.get("PFB_C09_UNSAFE_TARGET", "1") != "0"
 
 
 def gen_tree(rng, tool, nfiles=None):
@@ -304,6 +353,20 @@ def gen_tree(rng, tool, nfiles=None):
             tree[hd + "/t.py"] = ["file", newc(rng.choice(["C", "C", "U", "Cn"]))]
             ln = "h%d.py" % i
             tree[ln] = ["link", hd + "/t.py"]
+            r2 = rng.random()
+            if r2 < 0.2:      # a chain ending there
+                tree["k%d.py" % i] = ["link", ln]
+                ln = "k%d.py" % i
+            elif r2 < 0.35:   # only an INTERMEDIATE link lives under the refused name; the real path is acceptable
+                tree["t%d.py" % i] = ["file", newc("C")]
+                tree[hd + "/mid.py"] = ["link", "../t%d.py" % i]
+                tree[ln] = ["link", hd + "/mid.py"]
+            elif r2 < 0.5:    # reached through a directory argument
+                tree["e%d" % i] = ["dir"]
+                tree["e%d/a.py" % i] = ["file", newc("C")]
+                tree["e%d/k.py" % i] = ["link", "../" + hd + "/t.py"]
+                del tree[ln]
+                ln = "e%d" % i
             args.append(ln)
         elif r < 0.70:
             nm = "g%d.py" % i
